@@ -491,6 +491,16 @@ pub fn debug_main(args: &[String]) -> ! {
     for e in idx.entries() {
         println!("{:?} {:?}", e.path(&idx), e.stat);
     }
+    {
+        let disk = gix::index::entry::Stat::from_fs(&gix::index::fs::Metadata::from_path_no_follow(&dir.join("a")).unwrap()).unwrap();
+        let e = idx.entries().iter().find(|e| e.path(&idx) == "a").unwrap();
+        let opts = gix::index::entry::stat::Options { trust_ctime: false, check_stat: true, use_nsec: false, use_stdev: false };
+        println!("matches {} is_racy {}", disk.matches(&e.stat, opts), disk.is_racy(idx.timestamp(), opts));
+        let repo = gix::open_opts(dir.path(), gix::open::Options::isolated()).unwrap();
+        let mut it = repo.status(gix::progress::Discard).unwrap().into_index_worktree_iter(Vec::new()).unwrap();
+        for i in it.by_ref() { println!("item {:?}", i.map(|i| i.summary())); }
+        println!("outcome {:?}", it.outcome_mut().map(|o| format!("{:?}", o.index_worktree.tracked_file_modification)));
+    }
     println!("a on disk: {:?}", gix::index::entry::Stat::from_fs(&gix::index::fs::Metadata::from_path_no_follow(&dir.join("a")).unwrap()));
     std::mem::forget(dir);
     std::process::exit(0)
